@@ -68,12 +68,13 @@ Rejected == Mode.kind \in {"no_actions", "no_rewards", "no_feedbacks", "no_useri
 Init == /\ tid \in 1..Len(Traces) /\ l = 1 /\ i = 1 /\ ans = NoAns /\ outcome = "running" /\ pc = "begin"
         /\ g = (IF EffSeed = NoVal THEN 0 ELSE EffSeed % R!Mod)
 Adv == l' = l + 1 /\ UNCHANGED tid
+Live == l <= Len(Evs)                    \* there is an event left to explain
 (* the first interaction is validated before the learner is touched *)
-Reject == /\ pc = "begin" /\ Rejected /\ Ev.e = "reject" /\ outcome' = "rejected" /\ pc' = "end" /\ Adv /\ UNCHANGED <<i, ans, g>>
-Begin  == /\ pc = "begin" /\ ~Rejected /\ pc' = "interaction" /\ UNCHANGED <<tid, l, i, ans, g, outcome>>
-Start  == /\ pc = "interaction" /\ i <= Len(Env) /\ pc' = "predict" /\ ans' = NoAns /\ UNCHANGED <<tid, l, i, g, outcome>>
+Reject == /\ Live /\ pc = "begin" /\ Rejected /\ Ev.e = "reject" /\ outcome' = "rejected" /\ pc' = "end" /\ Adv /\ UNCHANGED <<i, ans, g>>
+Begin  == /\ Live /\ pc = "begin" /\ ~Rejected /\ pc' = "interaction" /\ UNCHANGED <<tid, l, i, ans, g, outcome>>
+Start  == /\ Live /\ pc = "interaction" /\ i <= Len(Env) /\ pc' = "predict" /\ ans' = NoAns /\ UNCHANGED <<tid, l, i, g, outcome>>
 (* exactly this interaction's context (with its userid) and actions *)
-Predict == /\ pc = "predict" /\ Ev.e = "predict"
+Predict == /\ Live /\ pc = "predict" /\ Ev.e = "predict"
            /\ Ev.u = It.uid /\ Ev.c = It.ctx /\ Ev.acts = It.acts
            /\ IF Mode.fmt = "pmf"
               THEN LET idx == R!ChoiceW(g, Ev.w) IN
@@ -85,7 +86,7 @@ Predict == /\ pc = "predict" /\ Ev.e = "predict"
            /\ pc' = "learn" /\ Adv /\ UNCHANGED <<i, outcome>>
 (* the chosen action, ITS FEEDBACK, the learner's own probability and kwargs *)
 LearnSignal(a) == IF Variant = "learn_reward" THEN Rw(a) ELSE Fb(a)
-LearnStep == /\ pc = "learn" /\ Ev.e = "learn"
+LearnStep == /\ Live /\ pc = "learn" /\ Ev.e = "learn"
              /\ Ev.u = It.uid /\ Ev.c = It.ctx
              /\ Ev.a = ans.a /\ Ev.r = LearnSignal(ans.a) /\ Ev.p = ans.p /\ Ev.k = ans.k
              /\ pc' = "row" /\ Adv /\ UNCHANGED <<i, ans, g, outcome>>
@@ -100,10 +101,10 @@ WantRow == [e |-> "row", n |-> i,
             feedbacks   |-> IF Rec("feedbacks") THEN It.fbks ELSE <<>>,
             time        |-> Rec("time"),
             uid |-> It.uid, ex |-> It.ex, info |-> ans.info, other |-> <<>>]
-Row == /\ pc = "row" /\ Ev = WantRow /\ Adv
+Row == /\ Live /\ pc = "row" /\ Ev = WantRow /\ Adv
        /\ i' = i + 1 /\ pc' = "interaction" /\ UNCHANGED <<ans, g, outcome>>
-Finish == /\ pc = "interaction" /\ i = Len(Env) + 1 /\ Ev.e = "end" /\ outcome' = "done" /\ pc' = "end" /\ Adv /\ UNCHANGED <<i, ans, g>>
-Next == l <= Len(Evs) /\ (Reject \/ Begin \/ Start \/ Predict \/ LearnStep \/ Row \/ Finish)
+Finish == /\ Live /\ pc = "interaction" /\ i = Len(Env) + 1 /\ Ev.e = "end" /\ outcome' = "done" /\ pc' = "end" /\ Adv /\ UNCHANGED <<i, ans, g>>
+Next == Reject \/ Begin \/ Start \/ Predict \/ LearnStep \/ Row \/ Finish
 Spec == Init /\ [][Next]_vars
 
 AtEnd  == l = Len(Evs) + 1 /\ pc = "end"
